@@ -32,6 +32,22 @@
 //     of a copy of the current value, no decode into receiver-held storage, no append onto a receiver-held
 //     slice, no in-place element / map writes); keeping the message slice itself is recorded as an assumption.
 //
+//   - CONC-5  <Entry>:release-on-panic — every call in the critical section that can run repository / user
+//     code (evaluating calls, interface and dynamic calls, repository functions) comes after the
+//     registration of a deferred unlock (`defer mu.Unlock()` or a deferred literal that unlocks); an
+//     explicit Unlock on the normal path only is a violation (a recovered panic leaves the mutex held).
+//     The critical section may be provided by a lock-wrapper helper (withLock(func(){…})).
+//
+//   - CONC-6  <function>:one-snapshot — in code that builds an HTTP response (http.ResponseWriter in
+//     scope, or the return value of a handler-shaped function) at most one call of a state-reading
+//     Instance method (the entry points, and exported methods touching fields they write) flows, by
+//     def-use, into the response; two calls combined in one response are two critical sections.
+//
+//   - VIS-1   <T>.ApplyMessage:visible — every success return (nil error) is dominated by a store into a
+//     current-value field (directly or through a helper method on the receiver), unless the path is an
+//     equality shortcut against Value() (or `f != nil && v == *f` for the field Value() tests first);
+//     a shortcut whose notion of the current value ignores fields Value() consults is a violation.
+//
 // Evidence also lists (notes, coverage.other_instance_methods) what the other Instance methods touch
 // without the mutex and which HTTP handlers reach them; the property does not quantify over them.
 package c13
